@@ -398,7 +398,7 @@ package keeper
 //@ func (*Keeper).GetOperatorOptedUSDValue
 //@   flag noframe
 //@   flag pure=IsOptedIn,Wrap,Sprintf
-//@   ensures[C05.goouv.optedin] defined(res_IsOptedIn_0) && (res_IsOptedIn_0 && operatorAddr != "" && err == nil ==> defined(res_Get_0) &&
+//@   ensures[C05.goouv.optedin,C06.goouv.optedin] defined(res_IsOptedIn_0) && (res_IsOptedIn_0 && operatorAddr != "" && err == nil ==> defined(res_Get_0) &&
 //@        r0 == unm["x/operator/types.OperatorOptedUSDValue"](res_Get_0))
 
 // ---------------------------------------------------------------------------------------------
@@ -432,3 +432,26 @@ package keeper
 // infraction and its height, so that two different infractions at one height are two events.
 //@ func GetSlashIDForDogfood
 //@   ensures[C04.gsid.both] r0 == joinsep("_", hexu64(wrapu(infraction, 18446744073709551616)), hexu64(wrapu(infractionHeight, 18446744073709551616)))
+
+// C18 / C05 (the imported state is the exported one; an opted-in operator has a record - zero included - which is what
+// makes the epoch-end update visit it): every entry of the document is written, under its own key, whatever its value.
+//@ func (*Keeper).SetAllOperatorUSDValues
+//@   flag noframe
+//@ loop #1
+//@   invariant true
+//@   before[C18.saouv.key,C05.saouv.key] prefix.Store).Set requires arg1 == usdValues[phi1 + 1].Key
+//@   step[C18.saouv.all,C05.saouv.all] defined(res_MustMarshal_0) && get(ctx, "operator", cat(g("x/operator/types.KeyPrefixUSDValueForOperator"), usdValues[phi1].Key)) == res_MustMarshal_0
+
+// C07 (a consensus address that still resolves to its operator - a replaced key within its unbonding epochs included - can
+// be jailed through it): jailing and unjailing act on the operator the address RESOLVES to, whatever key that operator
+// validates with now; the flag written is the one asked for.
+//@ func (*Keeper).SetJailedState
+//@   flag noframe
+//@   flag pure=GetOperatorAddressForChainIDAndConsAddr,IsAVSByChainID,Logger,Info,Error,String
+//@   flag havoc=HandleOptedInfo
+//@   ensures[C07.sjs.resolved] res_GetOperatorAddressForChainIDAndConsAddr_0 ==> defined(res_IsAVSByChainID_0) && (res_IsAVSByChainID_0 ==> defined(res_HandleOptedInfo_0))
+//@   before[C07.sjs.who] HandleOptedInfo requires arg_avsAddr == res_IsAVSByChainID_1 && arg_operatorAddr == accstr(res_GetOperatorAddressForChainIDAndConsAddr_1)
+//@ func (*Keeper).SetJailedState$1
+//@   requires info != nil
+//@   modifies *info
+//@   ensures[C07.sjs.flag] info.Jailed == jailed
